@@ -272,7 +272,11 @@ func runWriter(rc *RunCtx, p writerPlan, w *simrt.SimWriteCloser) SimResult {
 	if p.Giant > 0 {
 		density = 0 // per-nucleotide loops of a 10 MB record would exhaust the step budget
 	}
-	return rc.Sim(SimOpts{YieldDensity: density}, func() {
+	maxSteps := 0
+	if p.N > 1000 {
+		density, maxSteps = 0, 40000000
+	}
+	return rc.Sim(SimOpts{YieldDensity: density, MaxSteps: maxSteps}, func() {
 		switch p.Kind {
 		case wkChunk:
 			ch, _ := obiformats.WriteSeqFileChunk(w, true)
@@ -567,7 +571,20 @@ func runC04(rc *RunCtx) {
 		maxN = 12
 	}
 	p := drawWriterPlan(rc.Plan, maxN, false)
-	if p.Kind != wkChunk && p.Giant == 0 && p.N >= 1 && rc.Plan.Choose(6) == 0 {
+	if rc.Thorough() && rc.Plan.Choose(3000) == 0 {
+		// more batches than a 16-bit counter can number (thorough tier only: about a minute)
+		t := rc.Plan
+		p = writerPlan{Kind: []int{wkJSON, wkCSV, wkFasta}[t.Choose(3)], N: 65537 + t.Choose(300), Workers: 1 + t.Choose(2)}
+		p.Sizes = make([]int, p.N)
+		p.Arrival = make([]int, p.N)
+		p.Recs = make([]Rec, p.N)
+		for i := 0; i < p.N; i++ {
+			p.Sizes[i], p.Arrival[i] = 1, i
+			p.Recs[i] = Rec{ID: fmt.Sprintf("m%05d", i), Seq: "acgt"}
+		}
+		rc.Probe("more_than_65536_batches")
+	}
+	if p.Kind != wkChunk && p.Giant == 0 && p.N >= 1 && p.N < 1000 && rc.Plan.Choose(6) == 0 {
 		runC04File(rc, p)
 		return
 	}
@@ -712,15 +729,16 @@ func runC04File(rc *RunCtx, p writerPlan) {
 
 func init() {
 	register(&Property{
-		ID:     "C04",
-		Enum:   func(tier string) int { return len(c04CaseList(tier)) },
-		Case:   func(tier string, i int) []int32 { return c04CaseList(tier)[i] },
-		Random: func(tier string) int { return map[string]int{"quick": 1500, "thorough": 60000}[tier] },
-		Run:    runC04,
-		Level:  "exploration",
-		Rule:   "enumerated part: every arrival permutation of batch numbers 0..n-1 (n<=5 quick, n<=6 thorough) and every subset of empty batches x every permutation (n<=3 quick, n<=4 thorough), for WriteSeqFileChunk directly and for the FASTA/FASTQ/JSON/CSV writers with one formatting worker (arrival at the writer goroutine = injected order); random part: n<=7 (12 thorough), 1-4 formatting workers, gzip on/off, seeded schedules; 1 run in 6 goes through the ...ToFile entry points on a real file (new, left by a longer or a shorter run, append mode); 1 in 64 has an 8-11 MB batch. distinct = distinct (writer, batch sizes, arrival order, workers, compression, schedule signature); non-trivial = >=2 batches and (arrival order not the identity or >=2 formatting workers)",
-		Real:   []string{"obiformats.WriteSeqFileChunk", "obiformats.WriteFasta/WriteFastq/WriteJSON/WriteCSV", "obiformats.Format*Batch", "obiutils.CompressStream (bufio + pgzip)", "obiiter iterators (Push/Next/Split/WaitAndClose/WaitForLastPipe)", "obiseq records and pools"},
-		Stub:   []string{"output endpoint (simrt.SimWriteCloser)", "sync.Mutex/RWMutex/WaitGroup/Pool (simrt equivalents)", "goroutine scheduling (simrt scheduler)", "upstream pipeline (harness injector task)"},
+		ID:            "C04",
+		JobTimeoutSec: 1500,
+		Enum:          func(tier string) int { return len(c04CaseList(tier)) },
+		Case:          func(tier string, i int) []int32 { return c04CaseList(tier)[i] },
+		Random:        func(tier string) int { return map[string]int{"quick": 1500, "thorough": 60000}[tier] },
+		Run:           runC04,
+		Level:         "exploration",
+		Rule:          "enumerated part: every arrival permutation of batch numbers 0..n-1 (n<=5 quick, n<=6 thorough) and every subset of empty batches x every permutation (n<=3 quick, n<=4 thorough), for WriteSeqFileChunk directly and for the FASTA/FASTQ/JSON/CSV writers with one formatting worker (arrival at the writer goroutine = injected order); random part: n<=7 (12 thorough), 1-4 formatting workers, gzip on/off, seeded schedules; 1 run in 6 goes through the ...ToFile entry points on a real file (new, left by a longer or a shorter run, append mode); 1 in 64 has an 8-11 MB batch, 1 in 16 batches of 70-200 KB, 1 in 16 a plan of 18-57 batches; thorough tier: 1 run in 3000 has more than 65536 batches. distinct = distinct (writer, batch sizes, arrival order, workers, compression, schedule signature); non-trivial = >=2 batches and (arrival order not the identity or >=2 formatting workers)",
+		Real:          []string{"obiformats.WriteSeqFileChunk", "obiformats.WriteFasta/WriteFastq/WriteJSON/WriteCSV", "obiformats.Format*Batch", "obiutils.CompressStream (bufio + pgzip)", "obiiter iterators (Push/Next/Split/WaitAndClose/WaitForLastPipe)", "obiseq records and pools"},
+		Stub:          []string{"output endpoint (simrt.SimWriteCloser)", "sync.Mutex/RWMutex/WaitGroup/Pool (simrt equivalents)", "goroutine scheduling (simrt scheduler)", "upstream pipeline (harness injector task)"},
 	})
 }
 
